@@ -968,6 +968,32 @@ func nest(n int, leaf func(i int) string) string {
 
 var someIDs = []string{"MIT", "ISC", "Zlib", "Apache-2.0", "BSD-3-Clause", "BSD-2-Clause", "MPL-2.0", "EPL-2.0", "CC0-1.0", "Unlicense", "0BSD", "GPL-2.0-only", "GPL-3.0-only", "LGPL-2.1-only", "AGPL-3.0-only", "CDDL-1.0"}
 
+// legacyWithPairs: "L WITH e" for every deprecated id of the form L-with-<x>-exception and every exception whose name starts
+// with <x>-exception (read off the tables)
+func legacyWithPairs() []string {
+	var out []string
+	for _, d := range tblDeprecated {
+		i := strings.Index(d, "-with-")
+		if i < 0 || !strings.HasSuffix(d, "-exception") {
+			continue
+		}
+		lic, x := d[:i], strings.ToLower(strings.TrimSuffix(d[i+6:], "-exception"))
+		for _, e := range tblExceptions {
+			if strings.HasPrefix(strings.ToLower(e), x+"-exception") {
+				for _, l := range []string{lic, lic + "-only"} {
+					if implValid(l + " WITH " + e) {
+						out = append(out, l+" WITH "+e)
+					}
+				}
+			}
+		}
+	}
+	if len(out) == 0 {
+		out = []string{"GPL-2.0-only WITH Classpath-exception-2.0"}
+	}
+	return out
+}
+
 func families() []family {
 	id := func(i int) string { return someIDs[i%len(someIDs)] }
 	seq := func(n int, sep string) string {
@@ -1036,6 +1062,33 @@ func families() []family {
 			}
 			return strings.Join(p, " OR "), []string{"FSFAP"}
 		}, scale(128, 512), 0},
+		// licence / exception pairs for which a deprecated combined id exists (GPL-2.0-with-classpath-exception …): code that
+		// treats exactly those pairs specially must not make a plain AND chain of them expensive
+		{"and-chain-legacy-with-pairs", func(n int) (string, []string) {
+			pairs := legacyWithPairs()
+			p := make([]string, n)
+			for i := range p {
+				p[i] = pairs[i%len(pairs)]
+			}
+			return strings.Join(p, " AND "), []string{"MIT"}
+		}, scale(64, 256), 0},
+		{"or-chain-with-terms", func(n int) (string, []string) {
+			p := make([]string, n)
+			for i := range p {
+				p[i] = []string{"GPL-2.0-only", "GPL-3.0-or-later", "LGPL-2.1+", "Apache-2.0", "GPL-2.0"}[i%5] + " WITH " + tblExceptions[i%len(tblExceptions)]
+			}
+			return strings.Join(p, " OR "), []string{"MIT"}
+		}, scale(128, 512), 0},
+		// the cost of REFUSING (or accepting) an allowed-list entry: compound entries of growing size
+		{"allowed-entry-or-of-and-of-ors", func(n int) (string, []string) {
+			return "MIT", []string{"MIT", "Zed OR (" + rep("(MIT OR ISC)", " AND ", n) + ")"}
+		}, scale(64, 128), 0},
+		{"allowed-entry-and-of-ors", func(n int) (string, []string) {
+			return "MIT", []string{rep("(MIT OR ISC)", " AND ", n), "MIT"}
+		}, scale(64, 128), 0},
+		{"allowed-entry-nested", func(n int) (string, []string) {
+			return "MIT", []string{strings.Repeat("(", n) + "MIT" + strings.Repeat(")", n), "ISC AND " + strings.Repeat("(", n) + "MIT OR Zlib" + strings.Repeat(")", n)}
+		}, scale(512, 4096), 0},
 		{"many-spaces", func(n int) (string, []string) {
 			return "MIT" + strings.Repeat(" ", n) + "AND ISC", []string{"MIT", "ISC"}
 		}, scale(65536, 1<<20), 0},
